@@ -265,6 +265,8 @@ def main(argv=None):
             replay_path = argv.pop(0)
         elif a == "--jobs":
             nproc = int(argv.pop(0))
+        elif a == "--sub-opt":
+            os.environ["VERIF_SUB_OPT"] = "1"
         else:
             print("unknown argument", a)
             return 2
@@ -295,6 +297,12 @@ def _main(pid, tier, replay_path, nproc, seed, t0):
     if replay_path:
         with open(replay_path) as f:
             case = json.load(f)
+        if case.get("python_flags") == "-O" and not sys.flags.optimize:
+            # the case was found under the optimising interpreter: replay it the same way
+            import subprocess
+            r = subprocess.run([sys.executable, "-O", "-B", "-m", "mc.runner", pid, "--replay", replay_path],
+                               cwd=VERIF)
+            return r.returncode
         v = do_replay(mod, case)
         if v is None:
             print("replay: property %s holds on this case" % pid)
@@ -311,6 +319,11 @@ def _main(pid, tier, replay_path, nproc, seed, t0):
     if hasattr(mod, "warm"):
         mod.warm()
     shards = mod.plan(tier, seed)
+    sub_opt = os.environ.get("VERIF_SUB_OPT") == "1"
+    if sub_opt:
+        # a slice of the plan, run by a child interpreter started with -O (asserts stripped)
+        k = getattr(mod, "OPT_SHARDS", 6)
+        shards = shards[::max(1, len(shards) // k)][:k] if k else []
     only = os.environ.get("VERIF_ONLY_SHARDS")  # development aid: restrict to shards whose repr contains this
     if only:
         shards = [s for s in shards if only in repr(s)]
@@ -337,6 +350,17 @@ def _main(pid, tier, replay_path, nproc, seed, t0):
             v["_replay_path"] = path
             reg_viol.append(v)
 
+    # the same code under `python -O` (configuration dimension): a slice of the plan is run by a
+    # child interpreter with asserts stripped, concurrently with the main exploration
+    opt_proc = None
+    if not sub_opt and not sys.flags.optimize and getattr(mod, "OPT_SHARDS", 6) and not only:
+        import subprocess
+        env = dict(os.environ)
+        env["VERIF_SUB_OPT"] = "1"
+        env["VERIF_BUDGET_S"] = "15" if tier == "quick" else "300"
+        opt_proc = subprocess.Popen([sys.executable, "-O", "-B", "-m", "mc.runner", pid, "--tier", tier,
+                                     "--jobs", "3"], cwd=VERIF, env=env, stdout=subprocess.PIPE,
+                                    stderr=subprocess.PIPE, text=True)
     if nproc > 1 and n_shards > 1:
         ctx = mp.get_context("fork")
         pool = ctx.Pool(min(nproc, n_shards))
@@ -377,6 +401,25 @@ def _main(pid, tier, replay_path, nproc, seed, t0):
                     budget, done, n_shards)
                 break
 
+    # ---- collect the `python -O` sub-run (started before the main exploration) ----
+    opt_info = None
+    if opt_proc is not None:
+        try:
+            out, err = opt_proc.communicate(timeout=1800)
+            line = [l for l in out.splitlines() if l.startswith("SUBRESULT ")]
+            if line:
+                opt_info = json.loads(line[-1][len("SUBRESULT "):])
+            else:
+                harness_errors.append("python -O sub-run produced no result: %s" % (out + err)[-800:])
+        except Exception as ex:
+            harness_errors.append("python -O sub-run failed: %r" % (ex,))
+        if opt_info:
+            total.evaluations += opt_info["evaluations"]
+            total.transitions += opt_info["transitions"]
+            total.traces += opt_info["traces"]
+            total.count("python_O_shards", opt_info["shards"])
+            total.count("python_O_evaluations", opt_info["evaluations"])
+
     # ---- adjudicate violations -------------------------------------------
     printed_known = set()
     n_viol = 0
@@ -406,11 +449,26 @@ def _main(pid, tier, replay_path, nproc, seed, t0):
             continue  # at most two replay files per fingerprint
         seen_fp[fp] = seen_fp.get(fp, 0) + 1
         if path is None:
+            if sys.flags.optimize:
+                v["python_flags"] = "-O"
             path = write_replay(pid, v)
         n_viol += 1
         lines.append("# %s: %s" % (v["check"], v["explanation"]))
         lines.append("VIOLATION property=%s replay=%s" % (pid, path))
 
+    if opt_info:
+        for l in opt_info["lines"]:
+            lines.append(l)
+            if l.startswith("VIOLATION"):
+                n_viol += 1
+        if opt_info.get("harness_errors"):
+            harness_errors.extend(opt_info["harness_errors"])
+    if sub_opt:
+        print("SUBRESULT " + json.dumps({
+            "evaluations": total.evaluations, "transitions": total.transitions, "traces": total.traces,
+            "shards": done, "lines": [l.replace("# ", "# [python -O] ", 1) if l.startswith("# ") else l
+                                      for l in lines], "harness_errors": harness_errors[:3]}))
+        return 1 if n_viol else 0
     wall = time.time() - t0
     exhaustive = total.capped is None and not harness_errors and not only
     if only:
